@@ -144,6 +144,15 @@ func (x *X) eval3(e ast.Expr, env Env) int {
 		}
 		return 0
 	}
+	if atom, eq, ok := x.constCmp(e); ok {
+		if v, known := env[atom]; known {
+			if v == eq {
+				return 1
+			}
+			return -1
+		}
+		return 0
+	}
 	switch c := e.(type) {
 	case *ast.CallExpr:
 		// a one-line predicate helper: its returned expression over the arguments
@@ -242,6 +251,9 @@ func (x *X) refine(cond ast.Expr, val bool, env Env) {
 	if o, eq, ok := x.nilTest(cond); ok {
 		env[o] = eq == val
 	}
+	if atom, eq, ok := x.constCmp(cond); ok {
+		x.setAtom(atom, eq == val, env)
+	}
 }
 
 // step applies the effect of executing node n on env.
@@ -260,6 +272,10 @@ func (x *X) step(n ast.Node, env Env) {
 			default:
 				delete(env, eo)
 			}
+			return
+		}
+		if cv := x.constLocal(l); cv != nil {
+			x.assignConst(cv, r, env)
 			return
 		}
 		o := x.boolLocal(l)
@@ -299,6 +315,17 @@ func (x *X) step(n ast.Node, env Env) {
 				continue
 			}
 			for i, name := range vs.Names {
+				if cv := x.constLocal(name); cv != nil {
+					switch {
+					case len(vs.Values) == len(vs.Names):
+						x.assignConst(cv, vs.Values[i], env)
+					case len(vs.Values) == 0:
+						x.assignZero(cv, env)
+					default:
+						x.assignConst(cv, nil, env)
+					}
+					continue
+				}
 				if eo := ErrLocal(x.Info, name); eo != nil {
 					if len(vs.Values) == 0 {
 						env[eo] = true // var err error: nil
@@ -1095,4 +1122,191 @@ func (x *X) predicateOf(call *ast.CallExpr) ast.Expr {
 	cl.transfer(nil)
 	x.preds[call] = out
 	return out
+}
+
+// Locals of a basic non-boolean type that are compared with constants (a verdict carried as an
+// enumeration value: `verdict = drop ... if verdict != forward { continue }`). The knowledge "v == K"
+// is an entry of the Env keyed by a synthetic object per (v, K); the pairs are collected once from
+// the comparisons and assignments of the body, so that an assignment of one constant decides
+// every comparison of that local.
+
+type constAtoms struct {
+	of   map[*types.Var]map[string]types.Object // v -> K (exact string) -> atom
+	back map[types.Object]*types.Var
+	val  map[types.Object]string
+}
+
+func (x *X) atoms() *constAtoms {
+	if x.catoms != nil {
+		return x.catoms
+	}
+	ca := &constAtoms{of: map[*types.Var]map[string]types.Object{}, back: map[types.Object]*types.Var{}, val: map[types.Object]string{}}
+	x.catoms = ca
+	local := func(e ast.Expr) *types.Var {
+		id, ok := ast.Unparen(e).(*ast.Ident)
+		if !ok {
+			return nil
+		}
+		v, ok := core.ObjOf(x.Info, id).(*types.Var)
+		if !ok || v.IsField() || v.Pkg() == nil || v.Parent() == v.Pkg().Scope() {
+			return nil
+		}
+		b, ok := v.Type().Underlying().(*types.Basic)
+		if !ok || b.Info()&(types.IsInteger|types.IsString) == 0 {
+			return nil
+		}
+		return v
+	}
+	constOf := func(e ast.Expr) (string, bool) {
+		tv, ok := x.Info.Types[ast.Unparen(e)]
+		if !ok || tv.Value == nil {
+			return "", false
+		}
+		return tv.Value.ExactString(), true
+	}
+	add := func(v *types.Var, k string) {
+		if ca.of[v] == nil {
+			ca.of[v] = map[string]types.Object{}
+		}
+		if ca.of[v][k] == nil {
+			a := types.NewVar(v.Pos(), v.Pkg(), v.Name()+"=="+k, types.Typ[types.Bool])
+			ca.of[v][k] = a
+			ca.back[a] = v
+			ca.val[a] = k
+		}
+	}
+	compared := map[*types.Var]bool{}
+	ast.Inspect(x.G.Body, func(n ast.Node) bool {
+		switch st := n.(type) {
+		case *ast.BinaryExpr:
+			if st.Op == token.EQL || st.Op == token.NEQ {
+				for _, pair := range [][2]ast.Expr{{st.X, st.Y}, {st.Y, st.X}} {
+					if v := local(pair[0]); v != nil {
+						if k, ok := constOf(pair[1]); ok {
+							add(v, k)
+							compared[v] = true
+						}
+					}
+				}
+			}
+		case *ast.SwitchStmt:
+			if v := local(st.Tag); v != nil && st.Tag != nil {
+				for _, cl := range st.Body.List {
+					for _, e := range cl.(*ast.CaseClause).List {
+						if k, ok := constOf(e); ok {
+							add(v, k)
+							compared[v] = true
+						}
+					}
+				}
+			}
+		}
+		return true
+	})
+	ast.Inspect(x.G.Body, func(n ast.Node) bool {
+		if as, ok := n.(*ast.AssignStmt); ok && len(as.Lhs) == len(as.Rhs) {
+			for i, l := range as.Lhs {
+				if v := local(l); v != nil && compared[v] {
+					if k, ok := constOf(as.Rhs[i]); ok {
+						add(v, k)
+					}
+				}
+			}
+		}
+		return true
+	})
+	for v := range ca.of {
+		if !compared[v] {
+			delete(ca.of, v)
+		}
+	}
+	return ca
+}
+
+// constLocal: e is a local whose comparisons with constants are tracked.
+func (x *X) constLocal(e ast.Expr) *types.Var {
+	id, ok := ast.Unparen(e).(*ast.Ident)
+	if !ok {
+		return nil
+	}
+	v, ok := core.ObjOf(x.Info, id).(*types.Var)
+	if !ok || x.atoms().of[v] == nil {
+		return nil
+	}
+	return v
+}
+
+// constCmp: e is `v == K` / `v != K` (either order, also the synthesised case test of a tagged
+// switch) for a tracked local; returns the atom "v == K" and whether e asserts equality.
+func (x *X) constCmp(e ast.Expr) (types.Object, bool, bool) {
+	be, ok := ast.Unparen(e).(*ast.BinaryExpr)
+	if !ok || be.Op != token.EQL && be.Op != token.NEQ {
+		return nil, false, false
+	}
+	for _, pair := range [][2]ast.Expr{{be.X, be.Y}, {be.Y, be.X}} {
+		v := x.constLocal(pair[0])
+		if v == nil {
+			continue
+		}
+		tv, ok := x.Info.Types[ast.Unparen(pair[1])]
+		if !ok || tv.Value == nil {
+			continue
+		}
+		if a := x.atoms().of[v][tv.Value.ExactString()]; a != nil {
+			return a, be.Op == token.EQL, true
+		}
+	}
+	return nil, false, false
+}
+
+// setAtom records that the atom "v == K" holds (then every other constant of v is excluded) or does not.
+func (x *X) setAtom(atom types.Object, holds bool, env Env) {
+	ca := x.atoms()
+	v := ca.back[atom]
+	if !holds {
+		env[atom] = false
+		return
+	}
+	for _, a := range ca.of[v] {
+		env[a] = a == atom
+	}
+}
+
+func (x *X) assignConst(v *types.Var, r ast.Expr, env Env) {
+	ca := x.atoms()
+	for _, a := range ca.of[v] {
+		delete(env, a)
+	}
+	if r == nil {
+		return
+	}
+	r = ast.Unparen(r)
+	if tv, ok := x.Info.Types[r]; ok && tv.Value != nil {
+		k := tv.Value.ExactString()
+		for _, a := range ca.of[v] {
+			env[a] = ca.val[a] == k
+		}
+		return
+	}
+	// a copy of another tracked local carries its knowledge
+	if w := x.constLocal(r); w != nil && w != v {
+		for _, a := range ca.of[v] {
+			if b := ca.of[w][ca.val[a]]; b != nil {
+				if known, ok := env[b]; ok {
+					env[a] = known
+				}
+			}
+		}
+	}
+}
+
+func (x *X) assignZero(v *types.Var, env Env) {
+	ca := x.atoms()
+	zero := "0"
+	if b, ok := v.Type().Underlying().(*types.Basic); ok && b.Info()&types.IsString != 0 {
+		zero = `""`
+	}
+	for _, a := range ca.of[v] {
+		env[a] = ca.val[a] == zero
+	}
 }
